@@ -36,6 +36,21 @@ impl Prog {
     pub fn name(&self) -> String {
         format!("{}-{}", self.built.program.name, self.built.config.tag())
     }
+    pub fn line_at(&self, pc: u64) -> Option<u64> {
+        self.dref.row_for(pc.wrapping_sub(self.base)).map(|r| r.line)
+    }
+    pub fn file_at(&self, pc: u64) -> Option<&str> {
+        self.dref.row_for(pc.wrapping_sub(self.base)).map(|r| r.file.as_str())
+    }
+    pub fn is_stmt(&self, pc: u64) -> bool {
+        self.dref.stmt_boundary(pc.wrapping_sub(self.base))
+    }
+    pub fn stack(&self, i: usize) -> &Vec<reftrace::Frame> {
+        &self.trace.stacks[self.trace.steps[i].stack as usize]
+    }
+    pub fn depth(&self, i: usize) -> usize {
+        self.stack(i).len()
+    }
     pub fn in_trace(&self, pc: u64) -> bool {
         self.trace.steps.iter().any(|s| s.pc == pc)
     }
@@ -188,6 +203,9 @@ pub struct Oracles {
     pub projection: bool, // C01
     pub text: bool,       // C02
     pub output: bool,     // C02
+    pub teardown: bool,   // C11
+    pub steps: bool,      // C03
+    pub bt: bool,         // C05
 }
 
 pub struct Finding {
@@ -342,25 +360,40 @@ fn apply_inner(p: &Prog, cands: &[Cand], m: &mut Model, a: &Action, k: usize, o:
                 if m.exited || !m.started {
                     return;
                 }
+                let before = m.idx;
                 if res["err"] == "ProcessExit" {
                     m.exited = true;
                     m.idx = None;
                 } else if let Some(real) = o.get("real") {
                     let from = m.idx.map(|i| i + 1).unwrap_or(0);
+                    let no_debug_info_here = before.map(|i| p.depth(i) == 0).unwrap_or(true);
                     match locate(t, from, real) {
                         Some(j) => m.idx = Some(j),
                         None => {
-                            // outside the traced window (before main) or lost
-                            if m.idx.is_some() {
+                            // outside the traced window (before main), or in code without debug
+                            // information where step commands are unspecified, or lost
+                            if m.idx.is_some() && !no_debug_info_here {
                                 m.lost = true;
                             }
                         }
                     }
                 }
+                if or.steps {
+                    if let Some(i) = before.filter(|i| p.depth(*i) > 0) {
+                        check_step(p, m, a, i, o, res, ok, prop, f, &hist(k));
+                    }
+                }
             }
         }
         // ---- invariants evaluated after every command
-        if or.text && o["alive"].as_bool().unwrap_or(false) {
+        if or.bt {
+            if let (Some(i), Some(bt)) = (m.idx, o["bt"].as_array()) {
+                if !m.exited && !m.lost {
+                    check_bt(p, i, bt, &o["frame_info"], prop, f, &hist(k));
+                }
+            }
+        }
+        if or.text && m.started && o["alive"].as_bool().unwrap_or(false) {
             let diff: BTreeSet<u64> = o["text_diff"].as_array().map(|v| v.iter().filter_map(|e| e[0].as_u64()).collect()).unwrap_or_default();
             let mut allowed = m.addr_set();
             if !m.started {
@@ -376,6 +409,212 @@ fn apply_inner(p: &Prog, cands: &[Cand], m: &mut Model, a: &Action, k: usize, o:
             }
             if !missing.is_empty() && or.projection {
                 f.push(Finding { sig: format!("{prop}:text:breakpoint-not-patched"), detail: format!("[{}] {}: breakpoints {:x?} listed but the code is unpatched", p.name(), hist(k), missing) });
+            }
+        }
+    }
+}
+
+/// C03: the stop after a step command, against the reference trace (weak specification).
+#[allow(clippy::too_many_arguments)]
+fn check_step(p: &Prog, m: &Model, a: &Action, i: usize, o: &Value, res: &Value, ok: bool, prop: &str, f: &mut Vec<Finding>, hist: &str) {
+    let t = &p.trace;
+    let name = action_kind(a);
+    let d0 = p.depth(i);
+    let l0 = p.line_at(t.steps[i].pc);
+    let f0 = p.file_at(t.steps[i].pc);
+    let user_bps = m.addr_set();
+    // the step may legitimately be cut short by a user breakpoint reached before the bound
+    if !ok {
+        if m.exited {
+            // legal iff the program really ends before any legal stop: checked via bounds below
+        } else {
+            f.push(Finding { sig: format!("{prop}:{name}:failed:{}", res["err"].as_str().unwrap_or("?")), detail: format!("[{}] {hist}: {}", p.name(), res["msg"]) });
+            return;
+        }
+    }
+    if m.lost {
+        f.push(Finding { sig: format!("{prop}:{name}:stop-outside-real-execution"), detail: format!("[{}] {hist}: after the step the machine state (pc {:#x}) matches no later point of the reference execution", p.name(), o["real"]["pc"].as_u64().unwrap_or(0)) });
+        return;
+    }
+    let n = t.steps.len();
+    let same_activation = |j: usize| p.stack(j) == p.stack(i);
+    // first legal "different line in the current activation" boundary, or first boundary in the
+    // caller after the function returned
+    let bound_next = || -> Option<usize> {
+        for j in i + 1..n {
+            let dj = p.depth(j);
+            if dj < d0 {
+                // returned: first statement boundary in the caller
+                return (j..n).find(|&q| p.depth(q) < d0 && p.is_stmt(t.steps[q].pc) || p.depth(q) + 1 < d0);
+            }
+            // rows of another file (code inlined from a library) are neither required nor
+            // forbidden stops: only lines of the function's own file count
+            if dj == d0 && same_activation(j) && p.is_stmt(t.steps[j].pc) && p.line_at(t.steps[j].pc) != l0 && p.line_at(t.steps[j].pc).is_some() && p.file_at(t.steps[j].pc) == f0 && !p.dref.in_inlined(t.steps[j].pc.wrapping_sub(p.base)) {
+                return Some(j);
+            }
+        }
+        None
+    };
+    let first_bp_after = |lim: usize| -> Option<usize> { (i + 1..=lim.min(n - 1)).find(|&j| user_bps.contains(&t.steps[j].pc)) };
+    let ev_step: Vec<&Value> = o["events"].as_array().map(|v| v.iter().filter(|e| e["ev"] == "step").collect()).unwrap_or_default();
+    let Some(k) = m.idx else {
+        // exited during the step
+        let b = match a {
+            Action::Stepi => Some(i + 1),
+            Action::Finish => (i + 1..n).find(|&j| p.depth(j) < d0),
+            _ => bound_next(),
+        };
+        if let Some(b) = b {
+            if b < n && d0 >= 1 && !(matches!(a, Action::Finish) && d0 <= 1) {
+                f.push(Finding { sig: format!("{prop}:{name}:ran-past-legal-stop-to-exit"), detail: format!("[{}] {hist}: program exited during the step, but a legal stop existed at trace index {b} (pc {:#x}, line {:?})", p.name(), t.steps[b].pc, p.line_at(t.steps[b].pc)) });
+            }
+        }
+        return;
+    };
+    let pc_k = t.steps[k].pc;
+    // reported place = place of the real pc
+    if o["ecx_pc"].as_u64() != Some(pc_k) {
+        f.push(Finding { sig: format!("{prop}:{name}:reported-pc-differs-from-real-pc"), detail: format!("[{}] {hist}: ecx pc {:#x}, real pc {pc_k:#x}", p.name(), o["ecx_pc"].as_u64().unwrap_or(0)) });
+    }
+    for e in &ev_step {
+        if e["pc"].as_u64() != Some(pc_k) {
+            f.push(Finding { sig: format!("{prop}:{name}:on_step-pc-differs-from-real-pc"), detail: format!("[{}] {hist}: on_step pc {:#x}, real pc {pc_k:#x}", p.name(), e["pc"].as_u64().unwrap_or(0)) });
+        } else if let (Some(l), Some(rl)) = (e["line"].as_u64(), p.line_at(pc_k)) {
+            if l != rl {
+                f.push(Finding { sig: format!("{prop}:{name}:reported-line-differs"), detail: format!("[{}] {hist}: on_step line {l}, reference line of pc {pc_k:#x} is {rl}", p.name()) });
+            }
+        }
+    }
+    match a {
+        Action::Stepi => {
+            if k != i + 1 {
+                f.push(Finding { sig: format!("{prop}:stepi:not-exactly-one-instruction"), detail: format!("[{}] {hist}: stepi moved from trace index {i} to {k}", p.name()) });
+            }
+        }
+        Action::Finish => {
+            if d0 <= 1 {
+                return; // finishing main leaves the program's debug information: unspecified
+            }
+            let want = (i + 1..n).find(|&j| p.depth(j) < d0);
+            let cut = want.and_then(|w| first_bp_after(w.saturating_sub(1)));
+            if Some(k) != want && Some(k) != cut {
+                f.push(Finding { sig: format!("{prop}:finish:wrong-stop"), detail: format!("[{}] {hist}: finish from index {i} (depth {d0}) stopped at index {k} (depth {}, pc {pc_k:#x}); the function returns at index {want:?}", p.name(), p.depth(k)) });
+            }
+        }
+        Action::Next | Action::Step => {
+            let bound = bound_next();
+            let cut = bound.and_then(|b| first_bp_after(b.saturating_sub(1))).or_else(|| if bound.is_none() { first_bp_after(n - 1) } else { None });
+            if Some(k) == cut {
+                return;
+            }
+            if !p.is_stmt(pc_k) {
+                f.push(Finding { sig: format!("{prop}:{name}:stop-not-at-statement-boundary"), detail: format!("[{}] {hist}: stopped at pc {pc_k:#x} (index {k}, line {:?}) which is not the address of an is_stmt row", p.name(), p.line_at(pc_k)) });
+            }
+            let dk = p.depth(k);
+            if matches!(a, Action::Next) && dk > d0 {
+                let rec = p.stack(k).last().map(|fr| fr.entry) == p.stack(i).last().map(|fr| fr.entry);
+                f.push(Finding { sig: format!("{prop}:next:stopped-inside-callee{}", if rec { ":recursive" } else { "" }), detail: format!("[{}] {hist}: next from depth {d0} stopped at depth {dk} (pc {pc_k:#x}, line {:?})", p.name(), p.line_at(pc_k)) });
+            }
+            let own_file = f0.map(|f| f.ends_with(&p.built.program.src_file)).unwrap_or(false);
+            if let (Some(b), true) = (bound, own_file) {
+                let mut limit = b;
+                if matches!(a, Action::Step) {
+                    // entering a callee that has line information: must stop no later than its
+                    // first statement row after the prologue (any statement row inside is accepted)
+                    if let Some(c) = (i + 1..=b).find(|&j| p.depth(j) > d0 && p.line_at(t.steps[j].pc).is_some()) {
+                        let callee_stack = p.stack(c).clone();
+                        let first_stmt_in_callee = (c + 1..n).find(|&j| *p.stack(j) == callee_stack && p.is_stmt(t.steps[j].pc) && t.steps[j].pc != t.steps[c].pc);
+                        if let Some(fs) = first_stmt_in_callee {
+                            limit = limit.min(fs.max(c));
+                        }
+                    }
+                }
+                // consecutive statement boundaries of the very line that bounds the step are the same
+                // stop as far as the statement goes ("a statement boundary ... on a different line")
+                let limit_line = p.line_at(t.steps[limit].pc);
+                let mut ext = limit;
+                for j in limit + 1..=k.min(n - 1) {
+                    if p.stack(j) != p.stack(limit) {
+                        break;
+                    }
+                    if p.is_stmt(t.steps[j].pc) {
+                        if p.line_at(t.steps[j].pc) == limit_line && p.file_at(t.steps[j].pc) == p.file_at(t.steps[limit].pc) {
+                            ext = j;
+                        } else {
+                            break;
+                        }
+                    }
+                }
+                let limit = if k <= ext { k.max(limit) } else { limit };
+                if k > limit {
+                    // classify the skipped boundary for the known-finding signature
+                    let skipped_pc = t.steps[limit].pc;
+                    let func = p.dref.func_at(skipped_pc.wrapping_sub(p.base));
+                    let after_epilogue = func
+                        .map(|fu| {
+                            p.dref.rows.iter().any(|r| r.epilogue_begin && fu.ranges.iter().any(|(lo, hi)| *lo <= r.addr && r.addr < *hi) && r.addr + p.base < skipped_pc)
+                        })
+                        .unwrap_or(false);
+                    let bp_in_range = (i + 1..=k).any(|j| user_bps.contains(&t.steps[j].pc));
+                    let cause = if bp_in_range { "user-breakpoint-inside-stepped-range" } else if after_epilogue { "skipped-row-lies-after-epilogue-begin-row" } else { "other" };
+                    f.push(Finding { sig: format!("{prop}:{name}:stopped-later-than-allowed:{cause}"), detail: format!("[{}] {hist}: {name} from index {i} (line {l0:?}) stopped at index {k} (line {:?}, pc {pc_k:#x}); it had to stop no later than index {limit} (line {:?}, pc {skipped_pc:#x})", p.name(), p.line_at(pc_k), p.line_at(skipped_pc)) });
+                }
+            }
+        }
+        _ => {}
+    }
+}
+
+/// Does the range of this step command contain the end of the process (no legal stop remains)?
+pub fn crosses_exit(p: &Prog, m: &Model, a: &Action) -> bool {
+    let Some(i) = m.idx else { return false };
+    let t = &p.trace;
+    let n = t.steps.len();
+    match a {
+        Action::Stepi => i + 1 >= n,
+        Action::Step | Action::Next => {
+            let here = (p.file_at(t.steps[i].pc).map(|s| s.to_string()), p.line_at(t.steps[i].pc));
+            !(i + 1..n).any(|j| {
+                let pc = t.steps[j].pc;
+                p.is_stmt(pc) && (p.file_at(pc).map(|s| s.to_string()), p.line_at(pc)) != here && p.line_at(pc).is_some()
+            })
+        }
+        Action::Finish => !(i + 1..n).any(|j| p.depth(j) < p.depth(i) && p.depth(j) > 0),
+        _ => false,
+    }
+}
+
+/// C05: the backtrace at trace index i against the shadow stack.
+fn check_bt(p: &Prog, i: usize, bt: &[Value], fi: &Value, prop: &str, f: &mut Vec<Finding>, hist: &str) {
+    let st = p.stack(i);
+    if st.is_empty() {
+        return; // after main returned: no frame with debug information
+    }
+    let pc = p.trace.steps[i].pc;
+    let mut want: Vec<u64> = vec![pc];
+    for fr in st.iter().rev() {
+        want.push(fr.ret);
+    }
+    // frames up to and including main are decidable; main's caller (_start) has no unwind info
+    let decidable = st.len();
+    let got: Vec<u64> = bt.iter().filter_map(|fr| fr["ip"].as_u64()).collect();
+    let recursive = st.windows(2).any(|w| w[0].entry == w[1].entry);
+    // at a function's very first instructions the CFA rules are exact too, so no exemption
+    if got.len() < decidable || got[..decidable] != want[..decidable] {
+        let kind = if got.len() < decidable { "missing-frames" } else { "wrong-frame-ip" };
+        f.push(Finding {
+            sig: format!("{prop}:bt:{kind}{}", if recursive { ":recursion" } else { "" }),
+            detail: format!("[{}] {hist}: at trace index {i} (pc {pc:#x}) backtrace ips {:x?}; real call chain (innermost first) {:x?}", p.name(), got, &want[..decidable]),
+        });
+    }
+    if let (Some(cfa), Some(top)) = (fi["cfa"].as_u64(), st.last()) {
+        if fi["num"].as_u64() == Some(0) {
+            if cfa != top.cfa {
+                f.push(Finding { sig: format!("{prop}:frame-info:wrong-cfa"), detail: format!("[{}] {hist}: frame_info cfa {cfa:#x}, real {:#x}", p.name(), top.cfa) });
+            }
+            // `None` (no answer, e.g. the caller has no unwind information) is not a wrong answer
+            if fi["ret"].as_u64().is_some() && fi["ret"].as_u64() != Some(top.ret) {
+                f.push(Finding { sig: format!("{prop}:frame-info:wrong-return-address"), detail: format!("[{}] {hist}: frame_info return address {:x?}, real {:#x}", p.name(), fi["ret"].as_u64(), top.ret) });
             }
         }
     }
@@ -438,6 +677,8 @@ pub struct ExploreCfg {
     pub restart: bool,
     pub failing: bool,
     pub remove_by_num: bool,
+    pub bp_only_before_start: bool,
+    pub continue_after_start: bool,
     pub wall: Duration,
 }
 
@@ -445,10 +686,13 @@ pub fn actions_for(m: &Model, cands: &[Cand], cfg: &ExploreCfg) -> Vec<Action> {
     let mut v = vec![];
     if !m.started {
         v.push(Action::Start);
-    } else {
+    } else if cfg.continue_after_start {
         v.push(Action::Continue);
     }
     for k in 0..cands.len() {
+        if cfg.bp_only_before_start && m.started {
+            break;
+        }
         if m.enabled.contains_key(&k) {
             v.push(Action::Remove(k, false));
         } else {
@@ -576,7 +820,7 @@ pub fn explore_program(p: &Prog, cands: &[Cand], cfg: &ExploreCfg, part: &mut Pa
 
 fn walk(p: &Prog, cands: &[Cand], cfg: &ExploreCfg, shared: &Mutex<Shared>, start_key: String, first_action: Action, prefix: Vec<Action>) {
     let replay_of = |path: &[Action]| json!({"engine":"e2e","prop":cfg.prop,"exe":p.built.exe,"cands":cands,"path":path,"history":path.iter().map(|a| a.label(cands)).collect::<Vec<_>>()});
-    let mut sess = match ISession::start("e2e", &init_json(p, false)) {
+    let mut sess = match ISession::start("e2e", &init_json(p, cfg.oracles.bt)) {
         Ok(s) => s,
         Err(e) => {
             shared.lock().unwrap().errors.push(format!("cannot start worker: {e}"));
@@ -706,7 +950,8 @@ fn walk(p: &Prog, cands: &[Cand], cfg: &ExploreCfg, shared: &Mutex<Shared>, star
             }
             Err(SessErr::Crashed { status, stderr }) => {
                 let first = stderr.lines().find(|l| l.contains("panicked")).unwrap_or(stderr.lines().last().unwrap_or("")).to_string();
-                g.findings.push((Finding { sig: format!("{}:debugger-crashed", cfg.prop), detail: format!("[{}] {:?}: worker {status}: {first}", p.name(), path.iter().map(|a| a.label(cands)).collect::<Vec<_>>()) }, replay_of(&path)));
+                let class = if crosses_exit(p, &m, &a) { ":step-range-contains-process-exit" } else { "" };
+                g.findings.push((Finding { sig: format!("{}:debugger-crashed{class}", cfg.prop), detail: format!("[{}] {:?}: worker {status}: {first}", p.name(), path.iter().map(|a| a.label(cands)).collect::<Vec<_>>()) }, replay_of(&path)));
                 return;
             }
         }
@@ -716,7 +961,7 @@ fn walk(p: &Prog, cands: &[Cand], cfg: &ExploreCfg, shared: &Mutex<Shared>, star
         Ok(res) => {
             let mut fs = vec![];
             check_output(p, cands, &m, &path, res["stdout"].as_str().unwrap_or(""), &cfg.oracles, cfg.prop, &mut fs);
-            if cfg.oracles.text && res["process_left_after_drop"].as_bool().unwrap_or(false) {
+            if cfg.oracles.teardown && res["process_left_after_drop"].as_bool().unwrap_or(false) {
                 fs.push(Finding { sig: format!("{}:process-left-after-drop", cfg.prop), detail: format!("[{}] {:?}: debuggee still exists after the debugger was dropped", p.name(), path.iter().map(|a| a.label(cands)).collect::<Vec<_>>()) });
             }
             let mut g = shared.lock().unwrap();
@@ -791,9 +1036,11 @@ pub fn candidates(p: &Prog, n: usize) -> Vec<Cand> {
 
 pub fn oracles_for(prop: &str) -> Oracles {
     match prop {
-        "C01" => Oracles { projection: true, text: false, output: false },
-        "C02" => Oracles { projection: false, text: true, output: true },
-        _ => Oracles { projection: true, text: true, output: true },
+        "C01" => Oracles { projection: true, text: false, output: false, teardown: false, steps: false, bt: false },
+        "C03" => Oracles { projection: false, text: false, output: false, teardown: false, steps: true, bt: false },
+        "C05" => Oracles { projection: false, text: false, output: false, teardown: false, steps: false, bt: true },
+        "C02" => Oracles { projection: false, text: true, output: true, teardown: false, steps: false, bt: false },
+        _ => Oracles { projection: true, text: true, output: true, teardown: true, steps: true, bt: true },
     }
 }
 
@@ -816,8 +1063,9 @@ pub fn replay(v: &Value) -> i32 {
     };
     let cands: Vec<Cand> = serde_json::from_value(v["cands"].clone()).unwrap_or_default();
     let path: Vec<Action> = serde_json::from_value(v["path"].clone()).unwrap_or_default();
-    let (_, a) = run_session(&p, &cands, &path, false);
-    let (_, b) = run_session(&p, &cands, &path, false);
+    let bt = oracles_for(&prop).bt;
+    let (_, a) = run_session(&p, &cands, &path, bt);
+    let (_, b) = run_session(&p, &cands, &path, bt);
     let summarize = |o: &WorkerOutcome| -> String {
         match o {
             WorkerOutcome::Ok(v) => v["obs"]
@@ -833,6 +1081,24 @@ pub fn replay(v: &Value) -> i32 {
     if strip(&sa) != strip(&sb) {
         eprintln!("harness nondeterminism: second run differs:\n{sb}");
         return 2;
+    }
+    if let WorkerOutcome::Ok(res) = &a {
+        // diagnostics: where in the reference trace does each observed machine state occur?
+        for o in res["obs"].as_array().cloned().unwrap_or_default() {
+            let real = &o["real"];
+            if let (Some(pc), Some(sp)) = (real["pc"].as_u64(), real["sp"].as_u64()) {
+                let hits: Vec<String> = p
+                    .trace
+                    .steps
+                    .iter()
+                    .enumerate()
+                    .filter(|(_, s)| s.pc == pc)
+                    .map(|(j, s)| format!("{j}{}{}{}", if s.sp == sp { "" } else { "(sp differs)" }, if s.regs == real["regs"].as_u64().unwrap_or(0) { "" } else { "(regs differ)" }, if s.mem == real["mem"].as_u64().unwrap_or(0) { "" } else { "(mem differs)" }))
+                    .take(8)
+                    .collect();
+                println!("  [{}] real pc {pc:#x} sp {sp:#x} line {:?} -> trace indices with this pc: {hits:?}", o["cmd"]["op"], p.line_at(pc));
+            }
+        }
     }
     match a {
         WorkerOutcome::Ok(res) => {
